@@ -639,33 +639,44 @@ func plans(thorough bool) []plan {
 	same2, same3, diff2, diff3 := []int{0, 0}, []int{0, 0, 0}, []int{0, 1}, []int{0, 0, 1}
 	// primary: two instances of the same compiled module in one runtime, full depth
 	add(d, "one", same2, "lazy", false)
-	// secondary configurations, one level shallower
+	// secondary configurations, one level shallower. The thorough tier (words are 34x more numerous per level)
+	// drops the combinations marked quickOnly; every dimension value is still exercised at depth d-1 there.
 	s := d - 1
+	quickOnly := func(f func()) {
+		if !thorough {
+			f()
+		}
+	}
 	for _, pol := range []string{"lazy", "eager", "eager-rev"} {
 		for _, vs := range [][]int{same2, same3, diff2} {
 			add(s, "one", vs, pol, false)
 		}
 	}
 	add(s, "one", diff3, "lazy", false)
-	add(s, "one", diff3, "eager", false)
+	quickOnly(func() { add(s, "one", diff3, "eager", false) })
 	// two runtimes sharing a compilation cache
 	for _, rt := range []string{"cache-mem", "cache-dir2"} {
-		for _, pol := range []string{"lazy", "eager"} {
-			add(s, rt, same2, pol, false)
-			add(s, rt, diff2, pol, false)
-		}
-		add(s, rt, same3, "lazy", false)
+		add(s, rt, same2, "lazy", false)
+		add(s, rt, same2, "eager", false)
+		add(s, rt, diff2, "lazy", false)
+		quickOnly(func() {
+			add(s, rt, diff2, "eager", false)
+			add(s, rt, same3, "lazy", false)
+		})
 	}
 	add(s, "cache-dir", same2, "lazy", false)
-	add(s, "cache-dir", same2, "eager", false)
+	quickOnly(func() { add(s, "cache-dir", same2, "eager", false) })
 	// one ModuleConfig value reused for every instance
-	for _, pol := range []string{"lazy", "eager"} {
-		for _, vs := range [][]int{same2, same3, diff2} {
-			add(s, "one", vs, pol, true)
-		}
+	for _, vs := range [][]int{same2, same3, diff2} {
+		add(s, "one", vs, "lazy", true)
 	}
+	add(s, "one", same2, "eager", true)
+	quickOnly(func() {
+		add(s, "one", same3, "eager", true)
+		add(s, "one", diff2, "eager", true)
+		add(s, "cache-dir2", same2, "lazy", true)
+	})
 	add(s, "cache-mem", same2, "lazy", true)
-	add(s, "cache-dir2", same2, "lazy", true)
 	return ps
 }
 
